@@ -192,6 +192,9 @@ type VC struct {
 	entryErr map[*ssa.Package]error
 	pureCache map[string][]Val
 	entries  map[string]*replayEntry // per verified run: the symbolic inputs, for replay
+	houdini  *houdiniHook
+	autoBusy bool
+	autoLoops map[string]*LoopContract
 	divCache map[string]Term
 	divAsTerm bool
 	declCache []declInfo
